@@ -7,6 +7,7 @@ import (
 	"fmt"
 	"math/rand/v2"
 	"sort"
+	"strconv"
 	"strings"
 	"time"
 	"unicode/utf8"
@@ -552,10 +553,14 @@ func (ft *faulter) field(f *sField, n *jval, pos string) {
 		wrong(jbool(false), &jval{kind: jObj}, &jval{kind: jArr})
 		num("unparsable-number", jstr("abc"), jstr("12x"), jstr(""), jnum("0.5"), jstr("1e3x"))
 		num("out-of-range", jnum("9223372036854775808"), jstr("9223372036854775808"), jstr("-9223372036854775809"), jnum("-9223372036854775809"))
+		// a bare number in fraction / exponent syntax is not an integer literal; beyond 2^53 a reader
+		// that goes through float64 would store a neighbouring integer (C03-m8)
+		num("float-syntax-integer", ft.floatSyntaxInts(true)...)
 	case "uint64":
 		wrong(jbool(false), &jval{kind: jObj}, &jval{kind: jArr})
 		num("unparsable-number", jstr("abc"), jstr("12x"), jstr(""), jnum("0.5"))
 		num("out-of-range", jnum("18446744073709551616"), jstr("18446744073709551616"), jstr("-1"), jnum("-1"))
+		num("float-syntax-integer", ft.floatSyntaxInts(false)...)
 	case "float32":
 		wrong(jbool(true), &jval{kind: jObj}, &jval{kind: jArr})
 		num("unparsable-number", jstr("abc"), jstr("1.5x"), jstr(""))
@@ -668,4 +673,45 @@ func injectFault(r *rand.Rand, root *sRoot, doc *jval) (class, kind, pos string,
 	s := cands[r.IntN(len(cands))]
 	s.apply()
 	return s.class, s.kind, s.pos, true
+}
+
+// floatSyntaxInts: bare JSON numbers written with a fraction or an exponent whose value is an
+// integer of more than 53 bits that float64 cannot represent (odd, or just outside the 64-bit range
+// by less than half an ulp) — fixed boundary cases plus random ones. Every one of them is a fault:
+// the token is not an integer literal, and no reader may store a different integer for it.
+func (ft *faulter) floatSyntaxInts(signed bool) []*jval {
+	out := []*jval{
+		jnum("9007199254740993.0"), jnum("9007199254740993e0"), jnum("9007199254740993.0e0"), jnum("9.007199254740993e15"),
+		jnum("1.8014398509481985e16"), jnum("900719925474099.3e1"), jnum("9007199254740993.00"), jnum("9007199254740993E0"),
+		jnum("4611686018427387905.0"), jnum("9223372036854775807.0"), jnum("9.223372036854775807e18"),
+	}
+	if signed {
+		out = append(out, jnum("-9007199254740993.0"), jnum("-9223372036854775809.0"), jnum("-9223372036854775809e0"),
+			jnum("-9.223372036854775809e18"), jnum("-4611686018427387905.0"), jnum("9223372036854775808.0"))
+	} else {
+		out = append(out, jnum("18446744073709551615.0"), jnum("1.8446744073709551615e19"), jnum("9223372036854775809.0"),
+			jnum("18446744073709551616.0"), jnum("12297829382473034411e0"))
+	}
+	// random odd integers with 54..63 (64) significant bits, in three spellings
+	for i := 0; i < 6; i++ {
+		bits := 54 + ft.r.IntN(9)
+		if !signed {
+			bits = 54 + ft.r.IntN(10)
+		}
+		v := (uint64(1) << (bits - 1)) | (ft.r.Uint64() & ((uint64(1) << (bits - 1)) - 1)) | 1
+		digits := strconv.FormatUint(v, 10)
+		sign := ""
+		if signed && ft.r.IntN(2) == 0 {
+			sign = "-"
+		}
+		switch ft.r.IntN(3) {
+		case 0:
+			out = append(out, jnum(sign+digits+".0"))
+		case 1:
+			out = append(out, jnum(sign+digits+"e0"))
+		default:
+			out = append(out, jnum(sign+digits[:1]+"."+digits[1:]+"e"+strconv.Itoa(len(digits)-1)))
+		}
+	}
+	return out
 }
